@@ -4,3 +4,4 @@ import Exmex.Model.Tracker
 import Exmex.Model.Flat
 import Exmex.Spec.Surface
 import Exmex.Model.Sym
+import Exmex.Spec.Order
